@@ -30,7 +30,7 @@ Horizon == 2000000000
 P == INSTANCE Protection WITH MaxD <- 0, MaxTick <- 1, Kinds <- {}, AsBuilt <- {},
                               mode <- "", until <- 0, pend <- FALSE, clock <- 0, g <- <<>>, out <- <<>>
 
-VARIABLES l, bad
+VARIABLES l, bad, off
 
 \* The stored pair of the code -> a state of the spec.  A set flag together
 \* with a deadline still ahead, a deadline before the origin or one that is
@@ -80,10 +80,15 @@ LineOk(i) ==
           /\ L.now = Q.now + (IF L.k = "tick" THEN L.d ELSE 0))
     /\ (i = 1 => L.k = "reset")
 
-Init == l = 1 /\ bad = {}
+\* Only the first rejected line of a history is recorded: after it the
+\* history is off the specification (its later lines start from a state the
+\* specification does not have), and the orchestrator ends the history there.
+Init == l = 1 /\ bad = {} /\ off = -1
 Next == /\ l <= Len(Trace)
-        /\ bad' = IF LineOk(l) THEN bad ELSE bad \cup {l}
+        /\ LET ok == LineOk(l) \/ Trace[l].tr = off IN
+           /\ bad' = IF ok THEN bad ELSE bad \cup {l}
+           /\ off' = IF ok THEN off ELSE Trace[l].tr
         /\ l' = l + 1
         /\ (l' = Len(Trace) + 1 => PrintT(<<"@@V", ToJson([n |-> Len(Trace), bad |-> bad'])>>))
-Spec == Init /\ [][Next]_<<l, bad>>
+Spec == Init /\ [][Next]_<<l, bad, off>>
 =============================================================================
